@@ -360,6 +360,7 @@ func variadicArgs(v ssa.Value) []ssa.Value {
 func runC43(c *Ctx) {
 	c43ListenerBuilds(c)
 	c43NumberBases(c)
+	c43PrinterForms(c)
 	kp := "gateway/pktcls."
 	c43Combinator(c, "("+kp+"CondAllOf).Eval", false, false)
 	c43Combinator(c, "("+kp+"CondAnyOf).Eval", true, true)
